@@ -6,6 +6,10 @@ Real code driven here (nothing under /repo is changed; collaborators are patched
   * `TransitSender/TransitReceiver.add_connection_hints` and `Common._connect` on a `task.Clock`;
   * a real `Manager` driven by `received_dilation_message`, with its real `Connector`
     (`_use_hints`, `_schedule_connection`, `_connect`); only `Connector._start_listener` is a no-op.
+  * kind "gens": the same real Manager + Connectors over *histories* — PLEASE as Leader or Follower, hints messages in
+    every state and generation, RECONNECT while connecting / connected / lonely, RECONNECTING, a connection made
+    (`Connector.add_candidate` + eventual queue) and lost, `stop()`, timers — with and without a relay, Tor stub,
+    listener delay and a status callback (`DilationStatus.hints` is the side channel of `_use_hints`).
 """
 import copy
 import json
@@ -44,6 +48,11 @@ TRUSTED = [
     "strings containing lone surrogates are not generated (not representable in the line protocol)",
     "Manager.use_hints reads hint_message['hints'] unguarded: a connection-hints message without a list in "
     "'hints' is outside the property's quantifier (lists in hint position); modelled and compared, not judged",
+    "kind gens: the winning connection is a Mock handed to the real Connector.add_candidate (no Noise handshake); the "
+    "selected connection is lost by calling Manager.connector_connection_lost(), as the real connection's "
+    "when_disconnected() does; NoTransition for a message the machine has no row for (hints after STOPPED, reconnect "
+    "to a Leader in FLUSHING, ...) is compared with the generated table, not judged",
+    "application status callbacks that raise are not generated (the exception would be the application's own)",
 ]
 RULE = ("type-directed JSON hint lists: valid direct/tor/relay hints over a small pool of hosts/ports/priorities "
         "(so duplicates and equal priorities occur), field-wise mutations (delete, replace by every JSON type, nest, "
@@ -52,6 +61,11 @@ RULE = ("type-directed JSON hint lists: valid direct/tor/relay hints over a smal
         "port, bool or int/float priority; top-level and inside relay-v1; both orders; one list or two calls), random JSON structures; each list goes through parse_hint, Transit.add_connection_hints+"
         "_connect (Clock, recorder endpoints, with/without Tor stub, listener, own relay) and a real Manager/Connector "
         "via received_dilation_message; thorough adds exhaustive single-field replacement over the atom table; "
+        "kind gens: random walks over the dilation protocol as an honest or hostile peer can drive it (PLEASE L/F; "
+        "connection-hints before, in and after every generation; reconnect while CONNECTING / CONNECTED / LONELY; "
+        "reconnecting; connection made / lost; stop; ticks), 1-3 hints messages per generation, relay / Tor / listener / "
+        "status-callback (none, recording, one that empties the set it is handed) configurations, plus a corpus of the "
+        "named histories; each `_schedule_connection` and `_connect` call is attributed to the Connector that made it; "
         "non-trivial = at least one hint reached a type branch; distinct = distinct canonical output traces")
 
 # flip to True to make the unguarded `hint_message["hints"]` access an oracle violation (see report)
@@ -359,6 +373,137 @@ def odd_lists(host):
     ]
 
 
+# ---------------------------------------------------------------------------
+# kind "gens": histories of one Manager (several generations of Connector)
+
+def _sanitize(v):
+    """no nan (order-free comparison is only implemented for the single-generation ops) and no lone surrogates"""
+    if isinstance(v, float) and math.isnan(v):
+        return 2.5
+    if isinstance(v, str) and any(0xD800 <= ord(c) <= 0xDFFF for c in v):
+        return "s.example"
+    if isinstance(v, list):
+        return [_sanitize(x) for x in v]
+    if isinstance(v, dict):
+        return {_sanitize(k): _sanitize(x) for k, x in v.items()}
+    return v
+
+
+GOOD_1 = [{"type": "direct-tcp-v1", "hostname": "10.0.0.1", "port": 1001},
+          {"type": "direct-tcp-v1", "hostname": ["10.0.0.9"], "port": 9}, {"type": "relay-v1"}, 5,
+          {"type": "direct-tcp-v1", "hostname": "10.0.0.9", "port": 9, "priority": "high"},
+          {"type": "relay-v1", "hints": [{"type": "direct-tcp-v1", "hostname": "relay1.example", "port": 1002}, {"type": "nope"}]}]
+GOOD_2 = [{"type": "relay-v1", "hints": "10.0.0.9:9"}, {},
+          {"type": "direct-tcp-v1", "hostname": "h2.example", "port": 2001, "priority": 3},
+          {"type": "relay-v1", "hints": [{"type": "direct-tcp-v1", "hostname": "10.0.1.2", "port": 2002}]}]
+
+# named histories; "H1"/"H2"/"H3" are replaced by hint lists
+GENS_SCRIPTS = {
+    "reconnect-while-connecting": ["please F", "H1", "reconnect", "H2", "H1", "tick"],
+    "reconnect-while-connecting-x3": ["please F", "H1", "reconnect", "H2", "reconnect", "reconnect", "H1", "H2", "tick", "made", "tick"],
+    "reconnect-while-connecting-late": ["please F", "H1", "tick", "reconnect", "H2", "tick", "H1", "tick"],
+    "ordinary-reconnect": ["please F", "H1", "tick", "made", "lost", "H3", "reconnect", "H2", "tick"],
+    "abandon-connected": ["please F", "H1", "made", "reconnect", "H3", "lost", "H2", "tick", "made", "tick"],
+    "leader-flush": ["please L", "H1", "made", "tick", "lost", "H3", "reconnecting", "H2", "tick", "made", "stop", "H1", "lost", "H2", "tick"],
+    "leader-reconnected-while-connecting": ["please L", "H1", "reconnect", "H2", "tick"],
+    "stop-while-connecting": ["please F", "H1", "stop", "H2", "tick"],
+    "stop-after-abandoned": ["please F", "H1", "reconnect", "H2", "stop", "H1", "tick"],
+    "too-early": ["H1", "please F", "H2", "tick"],
+    "stop-lonely": ["please F", "H1", "made", "lost", "H2", "stop", "H1", "tick"],
+    "made-then-hints": ["please L", "H1", "made", "H2", "tick", "lost", "reconnecting", "H1", "H2", "tick"],
+}
+
+
+def _script_ops(script, h1, h2, h3):
+    ops = []
+    for w in script:
+        if w in ("H1", "H2", "H3"):
+            ops.append(["hints", {"H1": h1, "H2": h2, "H3": h3}[w]])
+        else:
+            ops.append(w.split())
+    return ops
+
+
+def gens_corpus():
+    out = []
+    lists = [(GOOD_1, GOOD_2, GOOD_2), (GOOD_2, GOOD_1, []), ([], GOOD_1, GOOD_1)]
+    for name in sorted(GENS_SCRIPTS):
+        for i, (h1, h2, h3) in enumerate(lists):
+            for own in (False, True):
+                for status in (0, 1, 2):
+                    if i and status == 1:
+                        continue
+                    out.append(dict(kind="gens", name=name, tor=(i == 2 and own), nolisten=(status != 1), own=own, status=status,
+                                    ops=_script_ops(GENS_SCRIPTS[name], h1, h2, h3)))
+    # every corpus hint list (the shapes repaired by 147de0a among them) as the first message of an abandoned-and-restarted generation
+    for hl in CORPUS_HINTS:
+        if has_nan(hl):
+            continue
+        for own in (False, True):
+            out.append(dict(kind="gens", name="corpus-after-abandon", tor=False, nolisten=own, own=own, status=1,
+                            ops=[["please", "F"], ["hints", GOOD_1], ["reconnect"], ["hints", hl], ["tick"]]))
+    return out
+
+
+# what an honest peer / the network can do next in each state of the protocol (the generator's own notion, not read
+# from the code under test); F/L restrict a move to the Follower / Leader side
+GENS_MOVES = {
+    "WANTING": ["please", "please", "please", "hints", "stop"],
+    "CONNECTING": ["hints", "hints", "hints", "hints", "tick", "tick", "made", "made", "reconnect", "reconnect", "stop"],
+    "CONNECTED": ["hints", "tick", "lost", "lost", "lost", "reconnect:F", "stop"],
+    "FLUSHING": ["hints", "reconnecting", "reconnecting", "reconnecting", "tick", "stop"],
+    "LONELY": ["hints", "reconnect", "reconnect", "reconnect", "tick", "stop"],
+    "ABANDONING": ["hints", "lost", "lost", "lost", "stop"],
+    "STOPPING": ["hints", "lost", "lost", "tick"],
+    "STOPPED": ["hints", "tick"],
+}
+GENS_NEXT = {
+    ("WANTING", "please"): "CONNECTING", ("CONNECTING", "made"): "CONNECTED", ("CONNECTING", "reconnect"): "CONNECTING",
+    ("CONNECTING", "stop"): "STOPPED", ("CONNECTED", "lost:L"): "FLUSHING", ("CONNECTED", "lost:F"): "LONELY",
+    ("CONNECTED", "reconnect"): "ABANDONING", ("CONNECTED", "stop"): "STOPPING", ("FLUSHING", "reconnecting"): "CONNECTING",
+    ("FLUSHING", "stop"): "STOPPED", ("LONELY", "reconnect"): "CONNECTING", ("LONELY", "stop"): "STOPPED",
+    ("ABANDONING", "lost:F"): "CONNECTING", ("ABANDONING", "stop"): "STOPPING", ("STOPPING", "lost:L"): "STOPPED",
+    ("STOPPING", "lost:F"): "STOPPED", ("WANTING", "stop"): "STOPPED",
+}
+
+
+def gen_gens(rng, adversarial):
+    role = rng.choice("LF")
+    st = "WANTING"
+    ops = []
+    n = rng.choice([4, 6, 8, 10, 14])
+    stray = 0.12 if adversarial else 0.0
+    while len(ops) < n:
+        if rng.random() < stray:
+            # a message the protocol does not expect here (a hostile peer can send any of them at any time)
+            mv = rng.choice(["hints", "reconnect", "reconnecting", "please"])
+        else:
+            mv = rng.choice(GENS_MOVES[st])
+            if mv.endswith(":F"):
+                if role != "F":
+                    continue
+                mv = mv[:-2]
+        if mv == "hints":
+            for _ in range(rng.choice([1, 1, 1, 2, 3])):
+                hl = _sanitize(gen_hint_list(rng, adversarial and rng.random() < 0.6))
+                if rng.random() < 0.02:
+                    ops.append(["hintsmsg", rng.choice([{"type": "connection-hints"}, {"type": "connection-hints", "hints": 5},
+                                                        {"type": "connection-hints", "hints": {"a": 1}}])])
+                else:
+                    ops.append(["hints", hl])
+        elif mv == "please":
+            ops.append(["please", role])
+        else:
+            ops.append([mv])
+        key = (st, mv if mv != "lost" else "lost:" + role)
+        st = GENS_NEXT.get(key, st)
+        if st == "STOPPED":
+            n = min(n, len(ops) + rng.choice([0, 1, 2]))      # little happens after the end
+    ops.append(["tick"])
+    return dict(kind="gens", name="walk", tor=rng.random() < 0.25, nolisten=rng.random() < 0.4, own=rng.random() < 0.45,
+                status=rng.choice([0, 1, 1, 2]), ops=ops)
+
+
 def _env(rng):
     return dict(tor=rng.random() < 0.3, listener=rng.random() < 0.5, own=rng.random() < 0.4,
                 receiver=rng.random() < 0.5, nolisten=rng.random() < 0.3)
@@ -413,6 +558,7 @@ def cases(rng, tier):
               {"type": "connection-hints", "hints": None}, {"type": "connection-hints", "hints": "ab"},
               {"type": "connection-hints", "hints": {"type": "direct-tcp-v1", "hostname": "a", "port": 1}}]:
         out.append(dict(kind="dilation", tor=False, nolisten=False, own=False, mgr="CONNECTING", con="connecting", msgs=[m]))
+    out.extend(gens_corpus())
     out.append(dict(kind="produce", objs=[["direct", "192.168.1.5", 4001, 0.0], ["relay", [["direct", "relay.example", 4001, 0.0]]],
                                           ["tor", "abc.onion", 80, 2.0], ["relay", []],
                                           ["relay", [["direct", "a", 1, 1.5], ["direct", "b", 2, -1.0]]],
@@ -440,6 +586,8 @@ def cases(rng, tier):
             out.append(dict(kind="transit", tor=False, listener=True, own=True, receiver=True, adds=[hl]))
             out.append(dict(kind="dilation", tor=False, nolisten=False, own=True, mgr="CONNECTING", con="connecting",
                             msgs=[{"type": "connection-hints", "hints": hl}]))
+    for _ in range(900 * (1 if tier == "quick" else 40)):
+        out.append(gen_gens(rng, adversarial=rng.random() < 0.4))
     for _ in range(3000 * (1 if tier == "quick" else 40)):
         adv = rng.random() < 0.5
         e = _env(rng)
@@ -1042,6 +1190,248 @@ def run_dilation(case):
     return Result(lines, exp, viol, tags, nontrivial=bool(sched))
 
 
+class _FakeConn(mock.Mock):
+    """the connection that wins the race (the Noise handshake is not part of this property)"""
+
+
+def run_gens(case):
+    """one real Manager through a history: several Connectors, hints messages in every state and generation"""
+    tor = case["tor"]
+    lines, exp, viol = [], [], []
+    tags = ["gens", "gens:" + case.get("name", "walk"), "gens:status-cb=%d" % case["status"]]
+    connectors = []         # every Connector made, in order of creation
+    sched = []              # (k, delay units, is_relay, hint object, has endpoint): every _schedule_connection call
+    connects = []           # (k, ep is not None, connector state when the timer fired, [dials made by this call])
+    statuses = []
+    last_ep = []
+
+    orig_post = dconn.Connector.__attrs_post_init__
+    orig_sched = dconn.Connector._schedule_connection
+    orig_connect = dconn.Connector._connect
+    orig_ep = dconn.endpoint_from_hint_obj
+
+    def number(c):
+        for i, x in enumerate(connectors):
+            if x is c:
+                return i
+        connectors.append(c)
+        return len(connectors) - 1
+
+    def rec_post(self):
+        connectors.append(self)
+        return orig_post(self)
+
+    def rec_ep(h, tor_, reactor):
+        ep = orig_ep(h, tor_, reactor)
+        last_ep.append(ep is not None)
+        return ep
+
+    def rec_sched(self, delay, h, is_relay):
+        n = len(last_ep)
+        try:
+            return orig_sched(self, delay, h, is_relay)
+        finally:
+            has = last_ep[n] if len(last_ep) > n else False
+            sched.append((number(self), int(round(delay / self.RELAY_DELAY)), is_relay, h, has))
+
+    def rec_connect(self, ep, description, is_relay=False):
+        n = len(w.dials)
+        rec = [number(self), ep is not None, automat_state(self), []]
+        connects.append(rec)
+        try:
+            return orig_connect(self, ep, description, is_relay)
+        finally:
+            rec[3] = [(h, p) for (_tm, _k, h, p, _ph) in w.dials[n:]]
+
+    def show_gsched(e):
+        k, d, r, h, has = e
+        kind = "direct" if isinstance(h, DirectTCPV1Hint) else "tor"
+        return f"{k}:{d}:{'R' if r else 'D'}:{kind}:{show_target(h.hostname, h.port)}:{'ep' if has else 'noep'}"
+
+    def status_cb(st):
+        statuses.append(st)
+        if case["status"] == 2:
+            try:
+                st.hints.clear()          # the very object the Manager keeps in _latest_status
+            except Exception:
+                pass
+
+    def show_status():
+        hs = m._latest_status.hints
+        if not isinstance(hs, (set, frozenset)):
+            return "<" + type(hs).__name__ + ">"
+        items = []
+        for x in hs:
+            url, direct = getattr(x, "url", None), getattr(x, "is_direct", None)
+            items.append((hx(url.encode("utf8", "surrogatepass")) if isinstance(url, str) else "<" + type(x).__name__ + ">") +
+                         (":D" if direct is True else ":R" if direct is False else ":?"))
+        return show_set(items)
+
+    with World() as w, mock.patch.object(dconn.Connector, "_start_listener", lambda self, addresses: None), \
+            mock.patch.object(dconn.Connector, "_get_listener_addresses", lambda self: []), \
+            mock.patch.object(dconn.Connector, "__attrs_post_init__", rec_post), \
+            mock.patch.object(dconn.Connector, "_schedule_connection", rec_sched), \
+            mock.patch.object(dconn.Connector, "_connect", rec_connect), \
+            mock.patch.object(dconn, "endpoint_from_hint_obj", rec_ep):
+        eq = EventualQueue(w.clock)
+        S = mock.Mock()
+        alsoProvides(S, ISend)
+        m = dman.Manager(S, SIDE, RELAY_LOC if case["own"] else None, w.clock, eq, Cooperator(scheduler=lambda f: w.clock.callLater(0, f)),
+                         ["ged"], 3000.0, None, case["nolisten"], status_cb if case["status"] else None)
+        if tor:
+            m._tor = _Tor(w)
+        m.got_dilation_key(b"\x00" * 32)
+        m.got_wormhole_versions({"can-dilate": ["ged"]})          # -> WANTING
+
+        seen = dict(sched=0, connects=0)
+
+        def result_line():
+            con = getattr(m, "_connector", None)
+            new_s = sched[seen["sched"]:]
+            new_c = connects[seen["connects"]:]
+            seen["sched"], seen["connects"] = len(sched), len(connects)
+            dial = [f"{k}:{show_target(h, p)}" for (k, has, _st, ds) in new_c if has for (h, p) in ds]
+            noep = sum(1 for (_k, has, _st, _ds) in new_c if not has)
+            return (f"{automat_state(m)} {automat_state(con) if con is not None else '-'} g{len(connectors)} sched=[" +
+                    ",".join(show_gsched(e) for e in new_s) + "] dial=[" + ",".join(dial) + f"] noep={noep} st=" + show_status()), new_s, new_c
+
+        lines.append(f"gnew {int(tor)} {int(case['nolisten'])} {int(case['own'])} {int(case['status'] == 2)}")
+        exp.append(result_line()[0])
+        sources = set()
+        all_lists = [op[1] for op in case["ops"] if op[0] == "hints"]
+        must = {}               # Connector number -> [(host, port)] that must have been dialled at its next tick
+        selected = False        # a connection has been selected and is not lost yet
+        done = []               # the ops performed so far (hint lists elided), for messages
+        for op in case["ops"]:
+            kind = op[0]
+            mgr0 = automat_state(m)
+            con0 = getattr(m, "_connector", None)
+            # what the network cannot do is not done: no attempt completes without a Connector, a connection is lost once
+            if (kind == "made" and con0 is None) or (kind == "lost" and not selected):
+                tags.append("gens:skipped-" + kind)
+                continue
+            if kind == "lost":
+                selected = False
+            con0s = automat_state(con0) if con0 is not None else "-"
+            err = None
+            refused = False
+            in_scope = True
+            msg = None
+            try:
+                if kind == "please":
+                    lines.append("gplease " + op[1])
+                    m.received_dilation_message(json.dumps({"type": "please", "side": ("0" if op[1] == "L" else "b") * 16}).encode())
+                elif kind in ("hints", "hintsmsg"):
+                    msg = wire({"type": "connection-hints", "hints": op[1]} if kind == "hints" else op[1])
+                    in_scope = isinstance(msg.get("hints"), list)
+                    lines.append("ghints " + enc_j(msg))
+                    if in_scope:
+                        sources |= valid_sources(msg["hints"], tor)
+                    m.received_dilation_message(json.dumps(msg).encode())
+                elif kind in ("reconnect", "reconnecting"):
+                    lines.append("g" + kind)
+                    m.received_dilation_message(json.dumps({"type": kind}).encode())
+                elif kind == "made":
+                    lines.append("gmade")
+                    c = _FakeConn()
+                    c._description = "fake"
+                    m._connector.add_candidate(c)
+                    w.phase = "timer"
+                    w.clock.advance(0)
+                elif kind == "lost":
+                    lines.append("glost")
+                    m.connector_connection_lost()
+                elif kind == "stop":
+                    lines.append("gstop")
+                    m.stop()
+                elif kind == "tick":
+                    lines.append("gtick")
+                    w.run_timers(2, dconn.Connector.RELAY_DELAY)
+                else:
+                    raise ValueError(kind)
+            except Exception as e:
+                err = _name(e)
+                # NoTransition of the *Manager's* machine (the message has no row in this state) is raised before
+                # anything changes and is compared with the generated table; NoTransition from inside an output
+                # (e.g. got_hints on a Connector that was stopped) is a failure of hint handling like any other
+                refused = err == "NoTransition" and (kind == "made" or "MethodicalInput(method=<function Manager." in str(e))
+            line, new_s, new_c = result_line()
+            exp.append(err or line)
+            tags.append(f"gens:{kind}@{mgr0}" + ("" if err is None else ":" + err))
+            if kind in ("hints", "hintsmsg") and len(connectors) > 1 and mgr0 == "CONNECTING":
+                tags.append("gens:hints-in-generation>0")
+            if kind == "reconnect" and mgr0 == "CONNECTING":
+                tags.append("gens:abandoned-while-connecting" + ("+relay" if case["own"] else ""))
+            # ---- oracle
+            done.append(op if kind not in ("hints", "hintsmsg") else [kind, "…"])
+            history = list(done)
+            if err is not None and not refused:
+                if kind in ("hints", "hintsmsg"):
+                    if in_scope or STRICT_MESSAGE_SHAPE:
+                        viol.append(("rx-hints-raises" if in_scope else "dilation-hints-field-shape",
+                                     f"received_dilation_message({msg!r}) raised {err} in state {mgr0}/{con0s}, generation "
+                                     f"{len(connectors) - 1}, after {history[:-1]!r} (relay={case['own']}, status callback={case['status']})"))
+                    else:
+                        tags.append("outside-quantifier:" + err)
+                else:
+                    viol.append(("generation-change-raises", f"{kind} in state {mgr0}/{con0s} raised {err} after {history[:-1]!r} "
+                                                            f"(relay={case['own']}, status callback={case['status']}): the new "
+                                                            f"generation's use of hints never happens"))
+                break
+            if err is not None:
+                tags.append("gens:no-row")
+                continue
+            if kind == "made" and automat_state(m) == "CONNECTED":
+                selected = True
+            cur = len(connectors) - 1
+            for (k, _d, _r, h, _has) in new_s:
+                if kind in ("hints", "hintsmsg") and (k != cur or con0 is None or connectors[k] is not con0):
+                    viol.append(("hints-reach-wrong-generation", f"hints message in generation {cur} made Connector {k} schedule "
+                                                                 f"{h.hostname!r}:{h.port!r} (history {history!r})"))
+            judge_targets(viol, "dilation-sched", [(h.hostname, h.port, r) for (_k, _d, r, h, _e) in new_s], sources, tor, case["own"])
+            for (k, has, cst, ds) in new_c:
+                if cst != "connecting" or k != cur:
+                    viol.append(("abandoned-generation-dialled", f"a timer of Connector {k} (state {cst}) fired during {kind} although "
+                                                                 f"the current generation is {cur} (history {history!r})"))
+                okset = {(h.hostname, h.port) for (kk, _d, _r, h, e) in sched if kk == k and e}
+                for hp in ds:
+                    if hp not in okset:
+                        viol.append(("target-without-valid-hint", f"gens: Connector {k} dialled {hp!r} which it never scheduled"))
+            if kind == "hints" and mgr0 == "CONNECTING" and con0s == "connecting":
+                must.setdefault(cur, []).extend(expected_direct(msg["hints"], tor) + expected_relay(msg["hints"], tor, all_lists))
+            if kind in ("made", "reconnect", "reconnecting", "stop", "lost"):
+                # the Connector may have been stopped / may have selected its winner: its pending timers are cancelled
+                for k in list(must):
+                    if automat_state(connectors[k]) != "connecting" or k != len(connectors) - 1:
+                        if must.pop(k):
+                            tags.append("gens:cancelled-before-dial")
+            if kind == "tick":
+                for k in list(must):
+                    attempted = {hp for (kk, has, _st, ds) in connects if kk == k for hp in ds}
+                    for hp in must.pop(k):
+                        if hp not in attempted:
+                            viol.append(("valid-hint-not-dialled", f"gens: valid hint {hp!r} sent in generation {k} never became a "
+                                                                   f"connection attempt of that generation's Connector (history {history!r}, "
+                                                                   f"relay={case['own']})"))
+        # ---- nothing may be logged as an error except what the attempts themselves explain
+        allowed = {"AttributeError": sum(1 for (_k, has, _st, _ds) in connects if not has), "ValueError": len(w.sync_failed)}
+        for name in sorted(set(w.errors)):
+            tags.append("logged:" + name)
+            if w.errors.count(name) > allowed.get(name, 0):
+                viol.append(("error-logged-while-handling-hints", f"gens: {w.errors.count(name)} x {name} logged, {allowed.get(name, 0)} "
+                                                                  f"explained by attempts without endpoint / with an unusable host name "
+                                                                  f"(ops {[o[0] for o in case['ops']]!r})"))
+        for (_k, _d, _r, _h, has) in sched:
+            if not has:
+                tags.append("scheduled-without-endpoint")
+                break
+        for (_tm, k, _h, _p, _ph) in w.dials:
+            tags.append("ep:" + k)
+        if case["status"]:
+            tags.append("gens:status-updates>0" if statuses else "gens:status-updates=0")
+    return Result(lines, exp, viol, tags, nontrivial=bool(sched))
+
+
 def run_case(case):
     k = case["kind"]
     if k == "parse":
@@ -1052,6 +1442,8 @@ def run_case(case):
         return run_transit(case)
     if k == "dilation":
         return run_dilation(case)
+    if k == "gens":
+        return run_gens(case)
     raise ValueError(k)
 
 
@@ -1069,6 +1461,21 @@ def search(rng, seconds, seeds):
 
 def shrink(case):
     k = case.get("kind")
+    if k == "gens":
+        ops = case["ops"]
+        for i in range(len(ops)):
+            if len(ops) > 1:
+                yield dict(case, ops=ops[:i] + ops[i + 1:])
+        for i, op in enumerate(ops):
+            if op[0] == "hints" and isinstance(op[1], list):
+                for j in range(len(op[1])):
+                    yield dict(case, ops=ops[:i] + [["hints", op[1][:j] + op[1][j + 1:]]] + ops[i + 1:])
+        for key in ("own", "tor", "nolisten"):
+            if case.get(key):
+                yield dict(case, **{key: False})
+        if case.get("status"):
+            yield dict(case, status=0)
+        return
     if k == "parse":
         vs = case["values"]
         for i in range(len(vs)):
